@@ -3,8 +3,10 @@
    write_xattrs and refresh_xattrs, the Skip arm of src/sync/mod.rs).  No proofs here.
 
    Attribute names and values are numbers; an attribute map is a function to [option].  The planner transfers the
-   file when the destination is missing or its content differs (every content change of the histories changes size
-   and mtime); otherwise the file is skipped. *)
+   file when the destination is missing, its content differs (every content change of the histories changes size
+   and mtime) or the source's time stamp moved although the bytes did not ([xs_touched]: a touch, a checkout, a restore --
+   the planner says Update, the data path copies the same bytes again: in place for a small destination, through a
+   working file + rename for a large one, whose fresh inode carries no attribute); otherwise the file is skipped. *)
 From Coq Require Import NArith List Bool.
 Import ListNotations.
 
@@ -22,10 +24,10 @@ Definition remove_absent (src dst : amap) : amap := fun k => match src k with So
 Definition refresh (src dst : amap) : amap := write_all src (remove_absent src dst).
 
 Record xfile : Type := mk_xfile { xf_content : N; xf_attrs : amap }.
-Record xstate : Type := mk_xstate { xs_src : xfile; xs_dst : option xfile }.
+Record xstate : Type := mk_xstate { xs_src : xfile; xs_dst : option xfile; xs_touched : bool }.
 
 Inductive xop : Type :=
-| SrcSet (k v : N) | SrcDel (k : N) | SrcWrite (c : N)
+| SrcSet (k v : N) | SrcDel (k : N) | SrcWrite (c : N) | SrcTouch
 | DstSet (k v : N) | DstDel (k : N)          (* somebody changes attributes of the destination file between runs *)
 | XSync (x : bool) (big : bool).             (* x: -X given; big: the destination is at least the delta threshold (working file + rename) *)
 
@@ -37,21 +39,23 @@ Definition transfer_attrs (x : bool) (src carried : amap) : amap :=
 Definition sync_file (refresh_on_skip : bool) (x big : bool) (st : xstate) : xstate :=
   let s := xs_src st in
   match xs_dst st with
-  | None => mk_xstate s (Some (mk_xfile (xf_content s) (transfer_attrs x (xf_attrs s) aempty)))
+  | None => mk_xstate s (Some (mk_xfile (xf_content s) (transfer_attrs x (xf_attrs s) aempty))) false
   | Some d =>
-      if N.eqb (xf_content d) (xf_content s)
-      then mk_xstate s (Some (mk_xfile (xf_content d) (if x && refresh_on_skip then refresh (xf_attrs s) (xf_attrs d) else xf_attrs d)))
-      else mk_xstate s (Some (mk_xfile (xf_content s) (transfer_attrs x (xf_attrs s) (if big then aempty else xf_attrs d))))
+      if N.eqb (xf_content d) (xf_content s) && negb (xs_touched st)
+      then mk_xstate s (Some (mk_xfile (xf_content d) (if x && refresh_on_skip then refresh (xf_attrs s) (xf_attrs d) else xf_attrs d))) false
+      else mk_xstate s (Some (mk_xfile (xf_content s) (transfer_attrs x (xf_attrs s) (if big then aempty else xf_attrs d)))) false
   end.
 
 Definition xstep (ros : bool) (st : xstate) (o : xop) : xstate :=
   let s := xs_src st in
+  let t := xs_touched st in
   match o with
-  | SrcSet k v => mk_xstate (mk_xfile (xf_content s) (aset (xf_attrs s) k v)) (xs_dst st)
-  | SrcDel k => mk_xstate (mk_xfile (xf_content s) (adel (xf_attrs s) k)) (xs_dst st)
-  | SrcWrite c => mk_xstate (mk_xfile c (xf_attrs s)) (xs_dst st)
-  | DstSet k v => match xs_dst st with Some d => mk_xstate s (Some (mk_xfile (xf_content d) (aset (xf_attrs d) k v))) | None => st end
-  | DstDel k => match xs_dst st with Some d => mk_xstate s (Some (mk_xfile (xf_content d) (adel (xf_attrs d) k))) | None => st end
+  | SrcSet k v => mk_xstate (mk_xfile (xf_content s) (aset (xf_attrs s) k v)) (xs_dst st) t
+  | SrcDel k => mk_xstate (mk_xfile (xf_content s) (adel (xf_attrs s) k)) (xs_dst st) t
+  | SrcWrite c => mk_xstate (mk_xfile c (xf_attrs s)) (xs_dst st) t
+  | SrcTouch => mk_xstate s (xs_dst st) true
+  | DstSet k v => match xs_dst st with Some d => mk_xstate s (Some (mk_xfile (xf_content d) (aset (xf_attrs d) k v))) t | None => st end
+  | DstDel k => match xs_dst st with Some d => mk_xstate s (Some (mk_xfile (xf_content d) (adel (xf_attrs d) k))) t | None => st end
   | XSync x big => sync_file ros x big st
   end.
 
@@ -60,5 +64,5 @@ Definition xrun (ops : list xop) (st : xstate) : xstate := fold_left (xstep true
 (* the pinned code: a skipped file is not touched at all *)
 Definition xrun_pinned (ops : list xop) (st : xstate) : xstate := fold_left (xstep false) ops st.
 
-Definition xinit (c : N) : xstate := mk_xstate (mk_xfile c aempty) None.
+Definition xinit (c : N) : xstate := mk_xstate (mk_xfile c aempty) None false.
 Definition observe_attrs (names : list N) (m : amap) : list (option N) := map m names.
